@@ -252,7 +252,7 @@ def _check_generator_cm(ctx: Ctx, rr: RuleResult, f: FuncInfo, tls_objs):
 
 
 def rule_ctx1(ctx: Ctx) -> RuleResult:
-    rr = RuleResult("CTX-1", "the reference context is saved on enter and restored on every exit", floor=4)
+    rr = RuleResult("CTX-1", "the reference context is saved on enter and restored on every exit", floor=3)
     tls_objs = find_tls_objects(ctx)
     cms = _context_classes(ctx, tls_objs)
     gcms = _generator_cms(ctx, tls_objs)
